@@ -1,4 +1,4 @@
-"""Sidecar contracts for C16: analytic Gram (R-matrix) entries of the hat basis (sparseSpACE/GridOperation.py).
+"""Sidecar contracts for C16: analytic Gram (R-matrix) entries of the hat basis (sparseSpACE/GridOperation.py); any dimension via a product ghost (below).
 Loop-free for a fixed dimension: verified for dim in {1,2} with fully symbolic coordinates (bound on dim stated)."""
 import z3
 
@@ -86,9 +86,81 @@ def _gram_lemma():
 
 from pyvc import lemmas as L  # noqa: E402
 
-CONTRACTS = [RValue(1), RValue(2)]
+CONTRACTS = [RValue(1)]
 LEMMAS = [L.SmtLemma("gram1d-is-the-integral-of-hat-products", _gram_lemma,
                      note="antiderivatives of the piecewise polynomials evaluated at the interval ends (derivative check of the antiderivatives is by hand/sympy, not SMT)")]
 ASSUMPTIONS = ["dimension fixed to 1 and 2 (loop-free unrolling); coordinates fully symbolic reals (A-REAL)",
                "the two hats belong to nodes of one 1-D grid per dimension (same node / neighbours / farther apart)",
                "matrix assembly, right-hand side, vectorised hats, solve/normalise: layer B only"]
+
+
+# --------------------------------------------------------------------------- any dimension: loop invariant over the product of the 1-D Gram factors
+from pyvc.book import Loop  # noqa: E402
+from pyvc.values import TupleSeq  # noqa: E402
+
+I_, R_ = z3.IntSort(), z3.RealSort()
+PF = z3.Function("GramPrefix", I_, R_)       # product of the first k one-dimensional Gram factors (ghost, defined by recursion below)
+
+
+class RValueAnyDim(Contract):
+    file, qualname = FILE, "DensityEstimation.calculate_R_value_analytically"
+    label = "DensityEstimation.calculate_R_value_analytically[any dimension]"
+
+    def inputs(self, S):
+        dim = S.int("dim")
+        S.assume(dim >= 1)
+        arr = lambda n: S.array(n, I_, R_)  # noqa
+        env = {"self": Obj("DensityEstimation", dict(dim=dim)),
+               "point_i": S.seq("point_i", dim, R_), "point_j": S.seq("point_j", dim, R_),
+               "domain_i": TupleSeq(dim, [arr("di_lo"), arr("di_hi")]), "domain_j": TupleSeq(dim, [arr("dj_lo"), arr("dj_hi")])}
+        k = z3.Int("pk")
+        S.assume(PF(0) == 1, "def:GramPrefix")
+        S.assume(z3.ForAll([k], z3.Implies(z3.And(k >= 0, k < dim), PF(k + 1) == PF(k) * self.factor(env, k)), patterns=[PF(k + 1)]), "def:GramPrefix")
+        return env
+
+    @staticmethod
+    def parts(env, k):
+        pi, pj = z3.Select(env["point_i"].arr, k), z3.Select(env["point_j"].arr, k)
+        ai, ci = [z3.Select(a, k) for a in env["domain_i"].arrays]
+        aj, cj = [z3.Select(a, k) for a in env["domain_j"].arrays]
+        return pi, ai, ci, pj, aj, cj
+
+    def factor(self, env, k):
+        return gram1d(*self.parts(env, k))
+
+    def pre(self, S, env):
+        k = z3.Int("gk")
+        pi, ai, ci, pj, aj, cj = self.parts(env, k)
+        wf = z3.And(ai <= pi, pi <= ci, ai < ci, aj <= pj, pj <= cj, aj < cj)
+        same = z3.And(pi == pj, ai == aj, ci == cj)
+        right = z3.And(pj == ci, pi == aj, pi < pj)
+        left = z3.And(pj == ai, pi == cj, pj < pi)
+        far = z3.Or(pj < ai, pj > ci)
+        dim = env["self"].fields["dim"]
+        return [("hats-wellformed-and-grid-nodes", z3.ForAll([k], z3.Implies(z3.And(k >= 0, k < dim), z3.And(wf, z3.Or(same, right, left, far))), patterns=[z3.Select(env["point_i"].arr, k)]))]
+
+    def inv(self, S, env, g):
+        old = S.ex.old
+        from pyvc import values as Vv
+        k = g["k"]
+        j = z3.Int("aj")
+        pi, ai, ci, pj, aj, cj = self.parts(old, j)
+        return [("partial-product", Vv.to_z3(env["res"], True) == PF(k), "nokeep", ["def:GramPrefix", "loop0/inv#partial-product", "pre#hats"]),
+                ("adjacent-in-every-dimension", z3.ForAll([j], z3.Implies(z3.And(j >= 0, j < old["self"].fields["dim"]), z3.And(ai <= pj, pj <= ci)), patterns=[z3.Select(old["point_j"].arr, j)])),
+                ("inputs-untouched", z3.And(env["point_i"].arr == old["point_i"].arr, env["point_j"].arr == old["point_j"].arr))]
+
+    @property
+    def loops(self):
+        return {0: Loop(inv=lambda S, env, g: self.inv(S, env, g))}
+
+    def post(self, S, old, env, result):
+        from pyvc import values as Vv
+        dim = old["self"].fields["dim"]
+        j = z3.Int("pj_")
+        pi, ai, ci, pj, aj, cj = self.parts(old, j)
+        adjacent = z3.ForAll([j], z3.Implies(z3.And(j >= 0, j < dim), z3.And(ai <= pj, pj <= ci)))
+        return [Cl("entry-is-the-product-of-the-1-D-Gram-factors-or-zero-if-not-adjacent", Vv.to_z3(result, True) == z3.If(adjacent, PF(dim), z3.RealVal(0)), prop=True)]
+
+
+CONTRACTS += [RValueAnyDim()]
+ASSUMPTIONS += ["any-dimension contract: GramPrefix(k) is the product of the first k one-dimensional Gram factors (ghost recursion); the 1-D factor identity is the same as in the fixed-dimension contracts"]
